@@ -147,3 +147,19 @@ pub fn del(k: K) -> Op {
 pub fn adv(ms: u64) -> Op {
     Op::Advance { ms }
 }
+
+/// Deduplication key for specification-level expectations: per key the expected deadline and whether the
+/// stored value is the expected one. Histories that reach the same implementation state with different
+/// expectations are *not* merged, so a divergence between the two is always explored further.
+pub fn ghost_key(pressure: bool) -> std::sync::Arc<dyn Fn(&SeqRun) -> String + Send + Sync> {
+    std::sync::Arc::new(move |run: &SeqRun| {
+        let g = ghost_after(run, run.ops.len(), pressure);
+        let o = &run.obs[run.ops.len()];
+        let mut s = String::new();
+        for (k, e) in g.iter() {
+            let stored = o.entry(*k).map(|x| x.1);
+            s.push_str(&format!("{}:{:?}:{};", k, e.deadline.map(|d| d as i64 - T0_MS as i64), if stored == Some(e.value) { "=" } else { "!" }));
+        }
+        s
+    })
+}
